@@ -85,25 +85,949 @@ Definition srdhm16_c (a b : Z) : Z :=
 Definition sdhm16_c (a b : Z) : Z :=
   if (a =? b) && (a =? -32768) then 32767 else Z.quot (a * b) 32768.
 
+Lemma quot_bounds a d : 0 < d ->
+  (0 <= a -> d * (Z.quot a d) <= a < d * (Z.quot a d) + d) /\ (a <= 0 -> a <= d * (Z.quot a d) < a + d).
+Proof.
+  intros Hd. split; intros Ha.
+  - pose proof (Z.quot_rem' a d). pose proof (Z.rem_bound_pos a d Ha Hd). lia.
+  - pose proof (Z.quot_rem' (-a) d) as H. pose proof (Z.rem_bound_pos (-a) d ltac:(lia) Hd).
+    rewrite Z.quot_opp_l in H by lia. lia.
+Qed.
+
+Lemma not_both_min (a b m : Z) : (a =? b) && (a =? m) = false -> a <> m \/ b <> m.
+Proof. rewrite andb_false_iff, !Z.eqb_neq. lia. Qed.
+
+(* |2^31 r - a b| <= 2^30 : the result is the nearest integer to a b / 2^31 *)
+Lemma srdhm32_c_bounds a b : in32 a -> in32 b -> (a =? b) && (a =? -2147483648) = false ->
+  2147483648 * srdhm32_c a b <= a * b + 1073741824 /\ a * b - 1073741824 <= 2147483648 * srdhm32_c a b.
+Proof.
+  intros Ha Hb Eo. unfold srdhm32_c. rewrite Eo.
+  destruct (Z.geb_spec (a * b) 0) as [Hs|Hs].
+  - destruct (quot_bounds (a * b + 1073741824) 2147483648 ltac:(lia)) as [H _]. specialize (H ltac:(lia)). lia.
+  - destruct (quot_bounds (a * b + (1 - 1073741824)) 2147483648 ltac:(lia)) as [_ H]. specialize (H ltac:(lia)). lia.
+Qed.
+
+Lemma srdhm32_c_in32 a b : in32 a -> in32 b -> in32 (srdhm32_c a b).
+Proof.
+  intros Ha Hb. destruct ((a =? b) && (a =? -2147483648)) eqn:Eo.
+  - unfold srdhm32_c. rewrite Eo. unfold in32. lia.
+  - pose proof (srdhm32_c_bounds a b Ha Hb Eo) as [H1 H2].
+    apply not_both_min in Eo. unfold in32 in *.
+    assert (a * b <= 4611686018427387904 - 2147483648) by nia.
+    assert (-4611686018427387904 <= a * b) by nia. lia.
+Qed.
+
 Lemma SRDHM32_closed a b : in32 a -> in32 b -> SRDHM32 a b = srdhm32_c a b.
 Proof.
-  intros Ha Hb. unfold SRDHM32, srdhm32_c, INT32_MIN, INT32_MAX.
+  intros Ha Hb. pose proof (srdhm32_c_in32 a b Ha Hb) as Hr. revert Hr.
+  unfold SRDHM32, srdhm32_c, INT32_MIN, INT32_MAX.
   pose proof (mul32_in64 a b Ha Hb) as Hab.
   rewrite (cast64_id a), (cast64_id b) by (apply in32_in64; assumption).
   rewrite (cast64_id (a * b)) by (unfold in64; lia).
   destruct ((a =? b) && (a =? -2147483648)) eqn:Eo; [reflexivity|].
-  destruct (Z.geb_spec (a * b) 0) as [Hs|Hs].
+  destruct (Z.geb_spec (a * b) 0) as [Hs|Hs]; intros Hr.
   - rewrite (cast32_id 1073741824) by (unfold in32; lia).
-    rewrite cast64_id by (unfold in64; lia).
-    apply cast32_id. unfold in32.
-    rewrite andb_false_iff, !Z.eqb_neq in Eo. unfold in32 in *.
-    assert (a * b <= 4611686018427387904 - 2147483648) by nia.
-    pose proof (Z.quot_rem' (a * b + 1073741824) 2147483648).
-    pose proof (Z.rem_bound_pos (a * b + 1073741824) 2147483648). lia.
-  - change (1 - 1073741824) with (-1073741823).
+    rewrite cast64_id by (unfold in64; lia). apply cast32_id. exact Hr.
+  - change (1 - 1073741824) with (-1073741823) in *.
     rewrite (cast32_id (-1073741823)) by (unfold in32; lia).
-    rewrite cast64_id by (unfold in64; lia).
-    apply cast32_id. unfold in32.
-    pose proof (Z.quot_rem' (a * b + -1073741823) 2147483648).
-    pose proof (Z.rem_bound_neg (a * b + -1073741823) 2147483648). lia.
+    rewrite cast64_id by (unfold in64; lia). apply cast32_id. exact Hr.
 Qed.
+
+(* Python's floor division followed by the "compensate" step is C's truncating division *)
+Lemma floor_fix_is_quot n d : 0 < d -> n < 0 ->
+  (if n / d * d <? n then n / d + 1 else n / d) = Z.quot n d.
+Proof.
+  intros Hd Hn. destruct (quot_bounds n d Hd) as [_ H]. specialize (H ltac:(lia)).
+  pose proof (Z.div_mod n d ltac:(lia)). pose proof (Z.mod_pos_bound n d Hd).
+  destruct (Z.ltb_spec (n / d * d) n); nia.
+Qed.
+
+Lemma srdhm32_gen_closed a b : in32 a -> in32 b -> G.saturating_rounding_mul32 a b = Some (srdhm32_c a b).
+Proof.
+  intros Ha Hb. unfold G.saturating_rounding_mul32, srdhm32_c.
+  rewrite (in_int32_intro a Ha), (in_int32_intro b Hb).
+  destruct ((a =? b) && (a =? -2147483648)) eqn:Eo; [reflexivity|].
+  cbv zeta. pose proof (mul32_in64 a b Ha Hb) as Hab.
+  rewrite (chk_int64_intro a), (chk_int64_intro b) by (apply in32_in64; assumption).
+  rewrite (chk_int64_intro (a * b)) by (unfold in64; lia).
+  change (Z.shiftl 1 31) with 2147483648. change (Z.shiftl 1 30) with 1073741824.
+  destruct (Z.geb_spec (a * b) 0) as [Hs|Hs].
+  - f_equal. symmetry. apply Z.quot_div_nonneg; lia.
+  - rewrite <- (floor_fix_is_quot (a * b + (1 - 1073741824)) 2147483648) by lia.
+    destruct (Z.ltb_spec ((a * b + (1 - 1073741824)) / 2147483648 * 2147483648) (a * b + (1 - 1073741824)));
+      reflexivity.
+Qed.
+
+(* ---- the property theorems for the 32-bit multiply ---- *)
+Lemma srdhm32_eq_gemmlowp_lemma a b :
+  in_int 32 a = true -> in_int 32 b = true -> G.saturating_rounding_mul32 a b = Some (SRDHM32 a b).
+Proof.
+  intros Ha Hb. apply in_int32_true in Ha. apply in_int32_true in Hb.
+  rewrite SRDHM32_closed by assumption. apply srdhm32_gen_closed; assumption.
+Qed.
+
+Lemma srdhm32_result_in_int32 a b :
+  in_int 32 a = true -> in_int 32 b = true -> in_int 32 (SRDHM32 a b) = true.
+Proof.
+  intros Ha Hb. apply in_int32_true in Ha. apply in_int32_true in Hb. apply in_int32_true.
+  rewrite SRDHM32_closed by assumption. apply srdhm32_c_in32; assumption.
+Qed.
+
+Lemma srdhm32_outside a b : in_int 32 a = false \/ in_int 32 b = false -> G.saturating_rounding_mul32 a b = None.
+Proof.
+  intros [H|H]; unfold G.saturating_rounding_mul32; rewrite H; [reflexivity|].
+  destruct (in_int 32 a); reflexivity.
+Qed.
+
+(* ------------------------------------------------------------------------------------------
+   16-bit multiplies *)
+Lemma srdhm16_c_bounds a b : in16 a -> in16 b -> (a =? b) && (a =? -32768) = false ->
+  32768 * srdhm16_c a b <= a * b + 16384 /\ a * b - 16384 <= 32768 * srdhm16_c a b.
+Proof.
+  intros Ha Hb Eo. unfold srdhm16_c. rewrite Eo.
+  destruct (Z.geb_spec (a * b) 0) as [Hs|Hs].
+  - destruct (quot_bounds (a * b + 16384) 32768 ltac:(lia)) as [H _]. specialize (H ltac:(lia)). lia.
+  - destruct (quot_bounds (a * b + (1 - 16384)) 32768 ltac:(lia)) as [_ H]. specialize (H ltac:(lia)). lia.
+Qed.
+
+Lemma srdhm16_c_in16 a b : in16 a -> in16 b -> in16 (srdhm16_c a b).
+Proof.
+  intros Ha Hb. destruct ((a =? b) && (a =? -32768)) eqn:Eo.
+  - unfold srdhm16_c. rewrite Eo. unfold in16. lia.
+  - pose proof (srdhm16_c_bounds a b Ha Hb Eo) as [H1 H2].
+    apply not_both_min in Eo. unfold in16 in *.
+    assert (a * b <= 1073741824 - 32768) by nia.
+    assert (-1073741824 <= a * b) by nia. lia.
+Qed.
+
+Lemma SRDHM16_closed a b : in16 a -> in16 b -> SRDHM16 a b = srdhm16_c a b.
+Proof.
+  intros Ha Hb. pose proof (srdhm16_c_in16 a b Ha Hb) as Hr. revert Hr.
+  unfold SRDHM16, srdhm16_c, INT16_MIN, INT16_MAX.
+  pose proof (mul16_in32 a b Ha Hb) as Hab.
+  rewrite (cast32_id a), (cast32_id b) by (apply in16_in32; assumption).
+  rewrite (cast32_id (a * b)) by (unfold in32; lia).
+  destruct ((a =? b) && (a =? -32768)) eqn:Eo; [reflexivity|].
+  destruct (Z.geb_spec (a * b) 0) as [Hs|Hs]; intros Hr.
+  - rewrite (cast16_id 16384) by (unfold in16; lia).
+    rewrite cast32_id by (unfold in32; lia). apply cast16_id. exact Hr.
+  - change (1 - 16384) with (-16383) in *.
+    rewrite (cast16_id (-16383)) by (unfold in16; lia).
+    rewrite cast32_id by (unfold in32; lia). apply cast16_id. exact Hr.
+Qed.
+
+Lemma srdhm16_gen_closed a b : in16 a -> in16 b -> G.saturating_rounding_mul16 a b = Some (srdhm16_c a b).
+Proof.
+  intros Ha Hb. unfold G.saturating_rounding_mul16, srdhm16_c.
+  rewrite (in_int16_intro a Ha), (in_int16_intro b Hb).
+  destruct ((a =? b) && (a =? -32768)) eqn:Eo; [reflexivity|].
+  cbv zeta. pose proof (mul16_in32 a b Ha Hb) as Hab.
+  rewrite (chk_int32_intro a), (chk_int32_intro b) by (apply in16_in32; assumption).
+  rewrite (chk_int32_intro (a * b)) by (unfold in32; lia).
+  change (Z.shiftl 1 15) with 32768. change (Z.shiftl 1 14) with 16384.
+  destruct (Z.geb_spec (a * b) 0) as [Hs|Hs].
+  - f_equal. symmetry. apply Z.quot_div_nonneg; lia.
+  - rewrite <- (floor_fix_is_quot (a * b + (1 - 16384)) 32768) by lia.
+    destruct (Z.ltb_spec ((a * b + (1 - 16384)) / 32768 * 32768) (a * b + (1 - 16384))); reflexivity.
+Qed.
+
+Lemma srdhm16_eq_lemma a b :
+  in_int 16 a = true -> in_int 16 b = true -> G.saturating_rounding_mul16 a b = Some (SRDHM16 a b).
+Proof.
+  intros Ha Hb. apply in_int16_true in Ha. apply in_int16_true in Hb.
+  rewrite SRDHM16_closed by assumption. apply srdhm16_gen_closed; assumption.
+Qed.
+
+Lemma srdhm16_result_in_int16 a b :
+  in_int 16 a = true -> in_int 16 b = true -> in_int 16 (SRDHM16 a b) = true.
+Proof.
+  intros Ha Hb. apply in_int16_true in Ha. apply in_int16_true in Hb. apply in_int16_true.
+  rewrite SRDHM16_closed by assumption. apply srdhm16_c_in16; assumption.
+Qed.
+
+(* saturating_mul16 = TFLite SaturatingDoublingHighMul (no rounding: truncation toward zero) *)
+Lemma sdhm16_c_in16 a b : in16 a -> in16 b -> in16 (sdhm16_c a b).
+Proof.
+  intros Ha Hb. unfold sdhm16_c. destruct ((a =? b) && (a =? -32768)) eqn:Eo.
+  - unfold in16. lia.
+  - apply not_both_min in Eo. unfold in16 in *.
+    assert (a * b <= 1073741824 - 32768) by nia.
+    assert (-1073741824 <= a * b) by nia.
+    destruct (quot_bounds (a * b) 32768 ltac:(lia)) as [H1 H2].
+    destruct (Z.le_ge_cases 0 (a * b)) as [Hs|Hs]; [specialize (H1 Hs)|specialize (H2 Hs)]; lia.
+Qed.
+
+Lemma SDHM16_closed a b : in16 a -> in16 b -> SaturatingDoublingHighMul16 a b = sdhm16_c a b.
+Proof.
+  intros Ha Hb. pose proof (sdhm16_c_in16 a b Ha Hb) as Hr. revert Hr.
+  unfold SaturatingDoublingHighMul16, sdhm16_c, INT16_MIN, INT16_MAX.
+  pose proof (mul16_in32 a b Ha Hb) as Hab.
+  rewrite (cast32_id a), (cast32_id b) by (apply in16_in32; assumption).
+  rewrite (cast32_id (a * b)) by (unfold in32; lia).
+  destruct ((a =? b) && (a =? -32768)) eqn:Eo; [reflexivity|].
+  intros Hr. apply cast16_id. exact Hr.
+Qed.
+
+Lemma sat_mul16_gen_closed a b : in16 a -> in16 b -> G.saturating_mul16 a b = Some (sdhm16_c a b).
+Proof.
+  intros Ha Hb. unfold G.saturating_mul16, sdhm16_c.
+  rewrite (in_int16_intro a Ha), (in_int16_intro b Hb).
+  destruct ((a =? b) && (a =? -32768)) eqn:Eo; [reflexivity|].
+  cbv zeta. pose proof (mul16_in32 a b Ha Hb) as Hab.
+  rewrite (chk_int32_intro a), (chk_int32_intro b) by (apply in16_in32; assumption).
+  rewrite (chk_int32_intro (a * b)) by (unfold in32; lia).
+  change (Z.shiftl 1 15) with 32768.
+  destruct (Z.geb_spec (a * b) 0) as [Hs|Hs].
+  - f_equal. symmetry. apply Z.quot_div_nonneg; lia.
+  - rewrite <- (floor_fix_is_quot (a * b) 32768) by lia.
+    destruct (Z.ltb_spec (a * b / 32768 * 32768) (a * b)); reflexivity.
+Qed.
+
+Lemma sat_mul16_eq_lemma a b :
+  in_int 16 a = true -> in_int 16 b = true ->
+  G.saturating_mul16 a b = Some (SaturatingDoublingHighMul16 a b) /\
+  SaturatingDoublingHighMul16 a b =
+    (if (a =? b) && (a =? -32768) then 32767 else Z.quot (a * b) (2 ^ 15)) /\
+  in_int 16 (SaturatingDoublingHighMul16 a b) = true.
+Proof.
+  intros Ha Hb. apply in_int16_true in Ha. apply in_int16_true in Hb.
+  rewrite SDHM16_closed by assumption. split; [apply sat_mul16_gen_closed; assumption|].
+  split; [reflexivity|]. apply in_int16_true. apply sdhm16_c_in16; assumption.
+Qed.
+
+(* ------------------------------------------------------------------------------------------
+   powers of two *)
+Lemma shiftl_1 n : 0 <= n -> Z.shiftl 1 n = 2 ^ n.
+Proof. intros. rewrite Z.shiftl_mul_pow2 by lia. lia. Qed.
+
+Lemma pow2_pos n : 0 <= n -> 1 <= 2 ^ n.
+Proof. intros. pose proof (Z.pow_pos_nonneg 2 n). lia. Qed.
+
+Lemma pow2_le n m : 0 <= n <= m -> 2 ^ n <= 2 ^ m.
+Proof. intros. apply Z.pow_le_mono_r; lia. Qed.
+
+Lemma pow2_split n m : 0 <= n -> 0 <= m -> 2 ^ n * 2 ^ m = 2 ^ (n + m).
+Proof. intros. rewrite Z.pow_add_r by lia. reflexivity. Qed.
+
+Lemma pow2_le_31 n : 0 <= n <= 31 -> 1 <= 2 ^ n <= 2147483648.
+Proof. intros. pose proof (pow2_pos n). pose proof (pow2_le n 31). change (2 ^ 31) with 2147483648 in *. lia. Qed.
+
+Lemma pow2_half n : 1 <= n -> 2 ^ n = 2 * 2 ^ (n - 1).
+Proof. intros. replace n with (1 + (n - 1)) at 1 by lia. rewrite Z.pow_add_r by lia. reflexivity. Qed.
+
+(* ------------------------------------------------------------------------------------------
+   RoundingDivideByPOT *)
+Definition rdbpot_c (x e : Z) : Z :=
+  x / 2 ^ e + (if x mod 2 ^ e >? (2 ^ e - 1) / 2 + (if x <? 0 then 1 else 0) then 1 else 0).
+
+Lemma rdbpot_c_bounds x e : 1 <= e ->
+  2 ^ e * rdbpot_c x e <= x + 2 ^ (e - 1) /\ x - 2 ^ (e - 1) <= 2 ^ e * rdbpot_c x e.
+Proof.
+  intros He. unfold rdbpot_c. rewrite (pow2_half e He).
+  pose proof (pow2_pos (e - 1) ltac:(lia)) as Hp. set (p := 2 ^ (e - 1)) in *.
+  assert (Hh : (2 * p - 1) / 2 = p - 1).
+  { symmetry. apply (Z.div_unique (2 * p - 1) 2 (p - 1) 1); lia. }
+  rewrite Hh.
+  pose proof (Z.div_mod x (2 * p) ltac:(lia)). pose proof (Z.mod_pos_bound x (2 * p) ltac:(lia)).
+  destruct (Z.ltb_spec x 0); destruct (Z.gtb_spec (x mod (2 * p)) (p - 1 + 1));
+    try destruct (Z.gtb_spec (x mod (2 * p)) (p - 1 + 0)); nia.
+Qed.
+
+Lemma rdbpot_c_e0 x : rdbpot_c x 0 = x.
+Proof.
+  unfold rdbpot_c. change (2 ^ 0) with 1. rewrite Z.div_1_r, Z.mod_1_r. change ((1 - 1) / 2) with 0.
+  destruct (x <? 0); cbn; lia.
+Qed.
+
+Lemma div_pow2_in32 x p : in32 x -> 1 <= p -> in32 (x / p).
+Proof.
+  unfold in32. intros Hx Hp. pose proof (Z.div_mod x p ltac:(lia)). pose proof (Z.mod_pos_bound x p ltac:(lia)).
+  split; nia.
+Qed.
+
+Lemma rdbpot_c_in32 x e : in32 x -> 0 <= e -> in32 (rdbpot_c x e).
+Proof.
+  intros Hx He. destruct (Z.eq_dec e 0) as [->|Hne]; [rewrite rdbpot_c_e0; assumption|].
+  pose proof (rdbpot_c_bounds x e ltac:(lia)) as [H1 H2].
+  pose proof (pow2_pos (e - 1) ltac:(lia)) as Hp. rewrite (pow2_half e ltac:(lia)) in *.
+  set (p := 2 ^ (e - 1)) in *. unfold in32 in *. split; nia.
+Qed.
+
+Lemma land_mask_if b : Z.land (mask_if b) 1 = if b then 1 else 0.
+Proof. destruct b; reflexivity. Qed.
+
+Lemma RDBPOT_closed x e : in32 x -> 0 <= e <= 31 -> RoundingDivideByPOT x e = rdbpot_c x e.
+Proof.
+  intros Hx He. pose proof (rdbpot_c_in32 x e Hx ltac:(lia)) as Hr. revert Hr.
+  unfold RoundingDivideByPOT, rdbpot_c. cbv zeta.
+  rewrite shiftl_1 by lia. pose proof (pow2_le_31 e He) as Hp.
+  rewrite (cast64_id (2 ^ e)) by (unfold in64; lia).
+  rewrite (cast32_id (2 ^ e - 1)) by (unfold in32; lia).
+  rewrite land_ones_mod by lia. rewrite !land_mask_if. rewrite !shiftr_div by lia.
+  change (2 ^ 1) with 2.
+  assert (0 <= (2 ^ e - 1) / 2 < 1073741824).
+  { split; [apply Z.div_pos; lia|apply Z.div_lt_upper_bound; lia]. }
+  rewrite (cast32_id ((2 ^ e - 1) / 2 + _)) by (unfold in32; destruct (x <? 0); lia).
+  intros Hr. rewrite cast32_id; [reflexivity|exact Hr].
+Qed.
+
+Lemma rdbpot_gen_closed x e : in32 x -> 0 <= e <= 31 -> G.rounding_divide_by_pot x e = Some (rdbpot_c x e).
+Proof.
+  intros Hx He. unfold G.rounding_divide_by_pot, rdbpot_c.
+  rewrite (in_int32_intro x Hx), (in_int32_intro e) by (unfold in32; lia). cbv zeta.
+  rewrite shiftl_1 by lia. rewrite land_ones_mod by lia. rewrite !shiftr_div by lia. change (2 ^ 1) with 2.
+  destruct (Z.ltb_spec x 0).
+  - destruct (Z.gtb_spec (x mod 2 ^ e) ((2 ^ e - 1) / 2 + 1)); f_equal; lia.
+  - rewrite Z.add_0_r. destruct (Z.gtb_spec (x mod 2 ^ e) ((2 ^ e - 1) / 2)); f_equal; lia.
+Qed.
+
+Lemma rdbpot_eq_gemmlowp_lemma x e :
+  in_int 32 x = true -> 0 <= e <= 31 ->
+  G.rounding_divide_by_pot x e = Some (RoundingDivideByPOT x e) /\ in_int 32 (RoundingDivideByPOT x e) = true.
+Proof.
+  intros Hx He. apply in_int32_true in Hx. rewrite RDBPOT_closed by assumption.
+  split; [apply rdbpot_gen_closed; assumption|]. apply in_int32_true. apply rdbpot_c_in32; [assumption|lia].
+Qed.
+
+(* what the result is: the nearest integer to x / 2^e, ties away from zero *)
+Lemma rdbpot_is_nearest x e :
+  in_int 32 x = true -> 1 <= e <= 31 ->
+  let r := RoundingDivideByPOT x e in
+  2 * Z.abs (2 ^ e * r - x) <= 2 ^ e /\ (2 * Z.abs (2 ^ e * r - x) = 2 ^ e -> Z.abs x < Z.abs (2 ^ e * r)).
+Proof.
+  intros Hx He. apply in_int32_true in Hx. cbv zeta. rewrite RDBPOT_closed by (assumption || lia).
+  unfold rdbpot_c. rewrite (pow2_half e ltac:(lia)).
+  pose proof (pow2_pos (e - 1) ltac:(lia)) as Hp. set (p := 2 ^ (e - 1)) in *.
+  assert (Hh : (2 * p - 1) / 2 = p - 1).
+  { symmetry. apply (Z.div_unique (2 * p - 1) 2 (p - 1) 1); lia. }
+  rewrite Hh.
+  pose proof (Z.div_mod x (2 * p) ltac:(lia)). pose proof (Z.mod_pos_bound x (2 * p) ltac:(lia)).
+  destruct (Z.ltb_spec x 0); destruct (Z.gtb_spec (x mod (2 * p)) (p - 1 + 1));
+    try destruct (Z.gtb_spec (x mod (2 * p)) (p - 1 + 0)); split; try nia.
+Qed.
+
+(* ------------------------------------------------------------------------------------------
+   saturating left shifts *)
+Definition clamp32 (v : Z) : Z := if v <? -2147483648 then -2147483648 else if v >? 2147483647 then 2147483647 else v.
+Definition clamp16 (v : Z) : Z := if v <? -32768 then -32768 else if v >? 32767 then 32767 else v.
+
+Lemma clamp32_in32 v : in32 (clamp32 v).
+Proof. unfold clamp32, in32. destruct (Z.ltb_spec v (-2147483648)); [lia|]. destruct (Z.gtb_spec v 2147483647); lia. Qed.
+Lemma clamp16_in16 v : in16 (clamp16 v).
+Proof. unfold clamp16, in16. destruct (Z.ltb_spec v (-32768)); [lia|]. destruct (Z.gtb_spec v 32767); lia. Qed.
+
+Lemma shift_left32_gen_closed a off : in32 a -> 0 <= off -> G.shift_left32 a off = Some (clamp32 (a * 2 ^ off)).
+Proof.
+  intros Ha Ho. unfold G.shift_left32, clamp32.
+  destruct (Z.geb_spec off 0); [|lia]. rewrite (in_int32_intro a Ha). cbv zeta. rewrite shiftl_1 by lia.
+  destruct (Z.ltb_spec (a * 2 ^ off) (-2147483648)); [reflexivity|].
+  destruct (Z.gtb_spec (a * 2 ^ off) 2147483647); [reflexivity|].
+  rewrite chk_int32_intro by (unfold in32; lia). reflexivity.
+Qed.
+
+Lemma shift_left16_gen_closed a off : in16 a -> 0 <= off -> G.shift_left16 a off = Some (clamp16 (a * 2 ^ off)).
+Proof.
+  intros Ha Ho. unfold G.shift_left16, clamp16.
+  destruct (Z.geb_spec off 0); [|lia]. rewrite (in_int16_intro a Ha). cbv zeta. rewrite shiftl_1 by lia.
+  destruct (Z.ltb_spec (a * 2 ^ off) (-32768)); [reflexivity|].
+  destruct (Z.gtb_spec (a * 2 ^ off) 32767); [reflexivity|].
+  rewrite chk_int16_intro by (unfold in16; lia). reflexivity.
+Qed.
+
+Lemma pow2_le_30 n : 0 <= n <= 30 -> 1 <= 2 ^ n <= 1073741824.
+Proof. intros. pose proof (pow2_pos n). pose proof (pow2_le n 30). change (2 ^ 30) with 1073741824 in *. lia. Qed.
+
+Lemma ShiftLeft32_closed a off : in32 a -> 0 <= off <= 30 -> ShiftLeft32 a off = clamp32 (a * 2 ^ off).
+Proof.
+  intros Ha Ho. unfold ShiftLeft32, clamp32, INT32_MIN, INT32_MAX. cbv zeta.
+  rewrite shiftl_1 by lia. pose proof (pow2_le_30 off Ho).
+  rewrite (cast64_id a) by (apply in32_in64; assumption).
+  rewrite (cast32_id (2 ^ off)) by (unfold in32; lia).
+  assert (in64 (a * 2 ^ off)) by (unfold in32, in64 in *; nia).
+  rewrite (cast64_id (a * 2 ^ off)) by assumption.
+  destruct (Z.ltb_spec (a * 2 ^ off) (-2147483648)); [reflexivity|].
+  destruct (Z.gtb_spec (a * 2 ^ off) 2147483647); [reflexivity|].
+  apply cast32_id. unfold in32. lia.
+Qed.
+
+Lemma SaturatingLeftShift16_closed a off : in16 a -> 0 <= off <= 30 -> SaturatingLeftShift16 a off = clamp16 (a * 2 ^ off).
+Proof.
+  intros Ha Ho. unfold SaturatingLeftShift16, clamp16, INT16_MIN, INT16_MAX. cbv zeta.
+  rewrite shiftl_1 by lia. pose proof (pow2_le_30 off Ho).
+  rewrite (cast64_id a) by (apply in32_in64, in16_in32; assumption).
+  rewrite (cast32_id (2 ^ off)) by (unfold in32; lia).
+  assert (in64 (a * 2 ^ off)) by (unfold in16, in64 in *; nia).
+  rewrite (cast64_id (a * 2 ^ off)) by assumption.
+  destruct (Z.ltb_spec (a * 2 ^ off) (-32768)).
+  - rewrite Z.min_l, Z.max_r by lia. reflexivity.
+  - destruct (Z.gtb_spec (a * 2 ^ off) 32767).
+    + rewrite Z.min_r, Z.max_l by lia. reflexivity.
+    + rewrite Z.min_l, Z.max_l by lia. apply cast16_id. unfold in16. lia.
+Qed.
+
+Lemma shift_left32_saturates_lemma a off :
+  in_int 32 a = true -> 0 <= off ->
+  G.shift_left32 a off = Some (Z.max (-2147483648) (Z.min 2147483647 (a * 2 ^ off))) /\
+  (off <= 30 -> G.shift_left32 a off = Some (ShiftLeft32 a off)).
+Proof.
+  intros Ha Ho. apply in_int32_true in Ha. rewrite shift_left32_gen_closed by assumption. split.
+  - f_equal. unfold clamp32. destruct (Z.ltb_spec (a * 2 ^ off) (-2147483648)); [lia|].
+    destruct (Z.gtb_spec (a * 2 ^ off) 2147483647); lia.
+  - intros. rewrite ShiftLeft32_closed by (assumption || lia). reflexivity.
+Qed.
+
+Lemma shift_left16_saturates_lemma a off :
+  in_int 16 a = true -> 0 <= off ->
+  G.shift_left16 a off = Some (Z.max (-32768) (Z.min 32767 (a * 2 ^ off))) /\
+  (off <= 30 -> G.shift_left16 a off = Some (SaturatingLeftShift16 a off)).
+Proof.
+  intros Ha Ho. apply in_int16_true in Ha. rewrite shift_left16_gen_closed by assumption. split.
+  - f_equal. unfold clamp16. destruct (Z.ltb_spec (a * 2 ^ off) (-32768)); [lia|].
+    destruct (Z.gtb_spec (a * 2 ^ off) 32767); lia.
+  - intros. rewrite SaturatingLeftShift16_closed by (assumption || lia). reflexivity.
+Qed.
+
+(* ------------------------------------------------------------------------------------------
+   SaturatingRoundingMultiplyByPOT (non-negative exponent as Vela's function), Rescale *)
+Definition srmbpot_c (x e : Z) : Z :=
+  if x >? 2 ^ (31 - e) - 1 then 2147483647 else if x <? - (2 ^ (31 - e) - 1) then -2147483648 else x * 2 ^ e.
+
+Lemma srmbpot_c_in32 x e : in32 x -> 0 <= e <= 31 -> in32 (srmbpot_c x e).
+Proof.
+  intros Hx He. unfold srmbpot_c.
+  destruct (Z.gtb_spec x (2 ^ (31 - e) - 1)); [unfold in32; lia|].
+  destruct (Z.ltb_spec x (- (2 ^ (31 - e) - 1))); [unfold in32; lia|].
+  pose proof (pow2_split (31 - e) e ltac:(lia) ltac:(lia)) as Hs. replace (31 - e + e) with 31 in Hs by lia.
+  change (2 ^ 31) with 2147483648 in Hs. pose proof (pow2_pos e ltac:(lia)). pose proof (pow2_pos (31 - e) ltac:(lia)).
+  unfold in32. split; nia.
+Qed.
+
+Lemma srmbpot_gen_closed x e : in32 x -> 0 <= e <= 31 ->
+  G.saturating_rounding_multiply_by_pot x e = Some (srmbpot_c x e).
+Proof.
+  intros Hx He. pose proof (srmbpot_c_in32 x e Hx He) as Hr. revert Hr.
+  unfold G.saturating_rounding_multiply_by_pot, srmbpot_c.
+  rewrite (in_int32_intro x Hx), (in_int32_intro e) by (unfold in32; lia). cbv zeta.
+  replace (32 - 1 - e) with (31 - e) by lia. rewrite shiftl_1 by lia.
+  destruct (Z.gtb_spec x (2 ^ (31 - e) - 1)); [reflexivity|].
+  destruct (Z.ltb_spec x (- (2 ^ (31 - e) - 1))); [reflexivity|].
+  intros Hr. rewrite shift_left32_gen_closed by (assumption || lia).
+  unfold clamp32. unfold in32 in Hr.
+  destruct (Z.ltb_spec (x * 2 ^ e) (-2147483648)); [lia|].
+  destruct (Z.gtb_spec (x * 2 ^ e) 2147483647); [lia|]. reflexivity.
+Qed.
+
+Lemma SRMBPOT_closed_pos x e : in32 x -> 1 <= e <= 30 -> SaturatingRoundingMultiplyByPOT e x = srmbpot_c x e.
+Proof.
+  intros Hx He. pose proof (srmbpot_c_in32 x e Hx ltac:(lia)) as Hr. revert Hr.
+  unfold SaturatingRoundingMultiplyByPOT, srmbpot_c, INT32_MAX, INT32_MIN.
+  destruct (Z.ltb_spec e 0); [lia|]. destruct (Z.eqb_spec e 0); [lia|]. cbv zeta.
+  replace (32 - 1 - e) with (31 - e) by lia. rewrite shiftl_1 by lia.
+  pose proof (pow2_le_31 (31 - e) ltac:(lia)).
+  rewrite (cast32_id (2 ^ (31 - e) - 1)) by (unfold in32; lia).
+  rewrite ShiftLeft32_closed by (assumption || lia).
+  destruct (Z.gtb_spec x (2 ^ (31 - e) - 1)).
+  - destruct (Z.ltb_spec x (- (2 ^ (31 - e) - 1))); [lia|reflexivity].
+  - destruct (Z.ltb_spec x (- (2 ^ (31 - e) - 1))); [reflexivity|].
+    intros Hr. unfold clamp32. unfold in32 in Hr.
+    destruct (Z.ltb_spec (x * 2 ^ e) (-2147483648)); [lia|].
+    destruct (Z.gtb_spec (x * 2 ^ e) 2147483647); [lia|]. reflexivity.
+Qed.
+
+Lemma srmbpot_c_e0 x : in32 x -> srmbpot_c x 0 = x.
+Proof.
+  unfold in32, srmbpot_c. intros. change (2 ^ (31 - 0) - 1) with 2147483647. change (2 ^ 0) with 1.
+  destruct (Z.gtb_spec x 2147483647); [lia|]. destruct (Z.ltb_spec x (Z.opp 2147483647)); lia.
+Qed.
+
+Lemma srmbpot_eq_lemma x e :
+  in_int 32 x = true -> 0 <= e <= 30 ->
+  G.saturating_rounding_multiply_by_pot x e = Some (SaturatingRoundingMultiplyByPOT e x) /\
+  in_int 32 (SaturatingRoundingMultiplyByPOT e x) = true.
+Proof.
+  intros Hx He. apply in_int32_true in Hx.
+  assert (E : SaturatingRoundingMultiplyByPOT e x = srmbpot_c x e).
+  { destruct (Z.eq_dec e 0) as [->|Hne].
+    - rewrite srmbpot_c_e0 by assumption. reflexivity.
+    - apply SRMBPOT_closed_pos; [assumption|lia]. }
+  rewrite E. split; [apply srmbpot_gen_closed; (assumption || lia)|].
+  apply in_int32_true. apply srmbpot_c_in32; (assumption || lia).
+Qed.
+
+Lemma rescale_eq_lemma src dst x :
+  in_int 32 src = true -> in_int 32 dst = true -> in_int 32 x = true -> -31 <= src - dst <= 30 ->
+  G.rescale src dst x = Some (Rescale src dst x) /\ in_int 32 (Rescale src dst x) = true.
+Proof.
+  intros Hs Hd Hx He. unfold G.rescale, Rescale. rewrite Hs, Hd, Hx. cbv zeta.
+  destruct (Z.ltb_spec (src - dst) 0).
+  - destruct (rdbpot_eq_gemmlowp_lemma x (- (src - dst)) Hx ltac:(lia)) as [E R].
+    rewrite E. unfold SaturatingRoundingMultiplyByPOT. destruct (Z.ltb_spec (src - dst) 0); [|lia]. split; [reflexivity|exact R].
+  - destruct (srmbpot_eq_lemma x (src - dst) Hx ltac:(lia)) as [E R]. rewrite E. split; [reflexivity|exact R].
+Qed.
+
+(* ------------------------------------------------------------------------------------------
+   DownScaleInt32ToInt16Multiplier *)
+Lemma downscale_multiplier_eq_lemma a :
+  in_int 32 a = true ->
+  G.downscale_multiplier_int32_to_int16 a = Some (DownScaleInt32ToInt16Multiplier a) /\
+  in_int 16 (DownScaleInt32ToInt16Multiplier a) = true /\
+  DownScaleInt32ToInt16Multiplier a = (if a >=? 2147450879 then 32767 else (a + 32768) / 65536).
+Proof.
+  intros Ha. unfold G.downscale_multiplier_int32_to_int16, DownScaleInt32ToInt16Multiplier, INT32_MAX, INT16_MAX.
+  rewrite Ha. apply in_int32_true in Ha. unfold in32 in Ha. cbv zeta.
+  change (Z.shiftl 1 15) with 32768. change (2147483647 - 32768) with 2147450879.
+  destruct (Z.geb_spec a 2147450879).
+  - split; [reflexivity|]. split; reflexivity.
+  - rewrite (cast32_id (a + 32768)) by (unfold in32; lia). rewrite shiftr_div by lia. change (2 ^ 16) with 65536.
+    assert (-32768 <= (a + 32768) / 65536 <= 32767).
+    { split; [apply Z.div_le_lower_bound; lia|]. assert ((a + 32768) / 65536 < 32768) by (apply Z.div_lt_upper_bound; lia). lia. }
+    rewrite cast32_id by (unfold in32; lia). rewrite cast16_id by (unfold in16; lia).
+    rewrite chk_int16_intro by (unfold in16; lia). split; [reflexivity|]. split; [|reflexivity].
+    apply in_int16_true. unfold in16. lia.
+Qed.
+
+(* ------------------------------------------------------------------------------------------
+   MultiplyByQuantizedMultiplier *)
+Lemma mbqm_eq_reference_lemma x m s :
+  in_int 32 x = true -> 0 <= m < 2 ^ 31 -> 0 <= s <= 62 ->
+  in_int 32 (x * 2 ^ (Z.max 0 (31 - s))) = true ->
+  G.multiply_by_quantized_multiplier x m s = Some (MultiplyByQuantizedMultiplier x m (31 - s)) /\
+  in_int 32 (MultiplyByQuantizedMultiplier x m (31 - s)) = true.
+Proof.
+  intros Hx Hm Hs Hp. change (2 ^ 31) with 2147483648 in Hm.
+  assert (Hmi : in_int 32 m = true) by (apply in_int32_true; unfold in32; lia).
+  unfold G.multiply_by_quantized_multiplier, MultiplyByQuantizedMultiplier. cbv zeta.
+  destruct (Z.gtb_spec (31 - s) 0) as [Hl|Hl].
+  - (* left shift *)
+    destruct (Z.ltb_spec (31 - s) 0); [lia|].
+    rewrite Z.max_r in Hp by lia. rewrite shiftl_1 by lia.
+    pose proof (pow2_le_30 (31 - s - 1) ltac:(lia)) as Hpw.
+    assert (Hpw' : 2 <= 2 ^ (31 - s) <= 2147483648).
+    { rewrite (pow2_half (31 - s)) by lia. lia. }
+    destruct (Z.eq_dec (2 ^ (31 - s)) 2147483648) as [E31|N31].
+    + (* s = 0: 1 << 31 does not fit the C int; x must be 0 (or the product leaves int32) *)
+      rewrite E31 in *. apply in_int32_true in Hp. apply in_int32_true in Hx. unfold in32 in *.
+      assert (x = 0 \/ x = -1) as [->| ->] by lia.
+      * rewrite !Z.mul_0_l. rewrite (cast32_id 0) by (unfold in32; lia).
+        pose proof (srdhm32_eq_gemmlowp_lemma 0 m eq_refl Hmi) as E. rewrite E.
+        pose proof (srdhm32_result_in_int32 0 m eq_refl Hmi) as R.
+        destruct (rdbpot_eq_gemmlowp_lemma _ 0 R ltac:(lia)) as [E2 R2]. rewrite E2. split; [reflexivity|exact R2].
+      * change (cast32 2147483648) with (-2147483648). change (-1 * -2147483648) with 2147483648.
+        change (cast32 2147483648) with (-2147483648). change (-1 * 2147483648) with (-2147483648).
+        pose proof (srdhm32_eq_gemmlowp_lemma (-2147483648) m eq_refl Hmi) as E. rewrite E.
+        pose proof (srdhm32_result_in_int32 (-2147483648) m eq_refl Hmi) as R.
+        destruct (rdbpot_eq_gemmlowp_lemma _ 0 R ltac:(lia)) as [E2 R2]. rewrite E2. split; [reflexivity|exact R2].
+    + rewrite (cast32_id (2 ^ (31 - s))) by (unfold in32; lia).
+      rewrite (cast32_id (x * 2 ^ (31 - s))) by (apply in_int32_true; exact Hp).
+      rewrite (srdhm32_eq_gemmlowp_lemma _ m Hp Hmi).
+      pose proof (srdhm32_result_in_int32 _ m Hp Hmi) as R.
+      destruct (rdbpot_eq_gemmlowp_lemma _ 0 R ltac:(lia)) as [E2 R2]. rewrite E2. split; [reflexivity|exact R2].
+  - (* right shift *)
+    rewrite Z.max_l in Hp by lia. change (2 ^ 0) with 1 in Hp. rewrite Z.mul_1_r in Hp.
+    change (Z.shiftl 1 0) with 1. change (cast32 1) with 1. rewrite Z.mul_1_r.
+    rewrite (cast32_id x) by (apply in_int32_true; exact Hx).
+    rewrite (srdhm32_eq_gemmlowp_lemma _ m Hx Hmi).
+    pose proof (srdhm32_result_in_int32 _ m Hx Hmi) as R.
+    destruct (Z.ltb_spec (31 - s) 0).
+    + destruct (rdbpot_eq_gemmlowp_lemma _ (- (31 - s)) R ltac:(lia)) as [E2 R2]. rewrite E2. split; [reflexivity|exact R2].
+    + replace (- (31 - s)) with 0 by lia.
+      destruct (rdbpot_eq_gemmlowp_lemma _ 0 R ltac:(lia)) as [E2 R2]. rewrite E2. split; [reflexivity|exact R2].
+Qed.
+
+(* outside the precondition the Python-int path stops with an assertion / OverflowError *)
+Lemma mbqm_outside_lemma x m s :
+  in_int 32 (x * 2 ^ (Z.max 0 (31 - s))) = false -> s <= 31 ->
+  G.multiply_by_quantized_multiplier x m s = None.
+Proof.
+  intros Hp Hs. unfold G.multiply_by_quantized_multiplier. cbv zeta.
+  assert (E : (if 31 - s >? 0 then 31 - s else 0) = Z.max 0 (31 - s)).
+  { destruct (Z.gtb_spec (31 - s) 0); lia. }
+  rewrite E. rewrite shiftl_1 by lia. rewrite srdhm32_outside by (left; exact Hp). reflexivity.
+Qed.
+
+(* ------------------------------------------------------------------------------------------
+   exp on [-1/4, 0)  (Q0.31) *)
+Lemma srdhm32_c_bounds' a b : in32 a -> in32 b -> a <> -2147483648 \/ b <> -2147483648 ->
+  2147483648 * srdhm32_c a b <= a * b + 1073741824 /\ a * b - 1073741824 <= 2147483648 * srdhm32_c a b.
+Proof.
+  intros Ha Hb Hn. apply srdhm32_c_bounds; try assumption.
+  rewrite andb_false_iff, !Z.eqb_neq. lia.
+Qed.
+
+Lemma mul_abs_bound a b A B : - A <= a <= A -> - B <= b <= B -> - (A * B) <= a * b <= A * B.
+Proof. intros. nia. Qed.
+
+Lemma rdbpot_c_bounds_1 x : 2 * rdbpot_c x 1 <= x + 1 /\ x - 1 <= 2 * rdbpot_c x 1.
+Proof. pose proof (rdbpot_c_bounds x 1 ltac:(lia)) as H. change (2 ^ 1) with 2 in H. change (2 ^ (1 - 1)) with 1 in H. exact H. Qed.
+Lemma rdbpot_c_bounds_2 x : 4 * rdbpot_c x 2 <= x + 2 /\ x - 2 <= 4 * rdbpot_c x 2.
+Proof. pose proof (rdbpot_c_bounds x 2 ltac:(lia)) as H. change (2 ^ 2) with 4 in H. change (2 ^ (2 - 1)) with 2 in H. exact H. Qed.
+
+Definition exp_interval_c (a : Z) : Z :=
+  let x := a + 268435456 in
+  let x2 := srdhm32_c x x in
+  let x3 := srdhm32_c x2 x in
+  let x4 := srdhm32_c x2 x2 in
+  let x4_4 := rdbpot_c x4 2 in
+  let m1 := srdhm32_c (x4_4 + x3) 715827883 in
+  let p := rdbpot_c (m1 + x2) 1 in
+  let m2 := srdhm32_c 1895147668 (x + p) in
+  1895147668 + m2.
+
+Lemma exp_interval_facts a : -536870912 <= a < 0 ->
+  let x := a + 268435456 in
+  let x2 := srdhm32_c x x in
+  let x3 := srdhm32_c x2 x in
+  let x4 := srdhm32_c x2 x2 in
+  let x4_4 := rdbpot_c x4 2 in
+  let m1 := srdhm32_c (x4_4 + x3) 715827883 in
+  let p := rdbpot_c (m1 + x2) 1 in
+  let m2 := srdhm32_c 1895147668 (x + p) in
+  in32 x /\ in32 x2 /\ in32 x3 /\ in32 x4 /\ in32 x4_4 /\ in32 (x4_4 + x3) /\ in32 m1 /\ in32 (m1 + x2) /\
+  in32 p /\ in32 (x + p) /\ in32 m2 /\ 0 < 1895147668 + m2 <= 2147483647.
+Proof.
+  intros Ha. intros x x2 x3 x4 x4_4 m1 p m2.
+  assert (Hx : -268435456 <= x <= 268435455) by (unfold x; lia).
+  assert (Ix : in32 x) by (unfold in32; lia).
+  (* x2 *)
+  pose proof (srdhm32_c_bounds' x x Ix Ix ltac:(lia)) as [U L]. fold x2 in U, L.
+  assert (Hxx : 0 <= x * x <= 72057594037927936) by nia.
+  assert (Hx2 : 0 <= x2 <= 33554432) by lia. clear U L.
+  assert (Ix2 : in32 x2) by (unfold in32; lia).
+  (* x3 *)
+  pose proof (srdhm32_c_bounds' x2 x Ix2 Ix ltac:(lia)) as [U L]. fold x3 in U, L.
+  pose proof (mul_abs_bound x2 x 33554432 268435456 ltac:(lia) ltac:(lia)) as Hp3.
+  change (33554432 * 268435456) with 9007199254740992 in Hp3.
+  assert (Hx3 : -4194304 <= x3 <= 4194304) by lia. clear U L.
+  assert (Ix3 : in32 x3) by (unfold in32; lia).
+  (* x4 *)
+  pose proof (srdhm32_c_bounds' x2 x2 Ix2 Ix2 ltac:(lia)) as [U L]. fold x4 in U, L.
+  assert (Hp4 : 0 <= x2 * x2 <= 1125899906842624) by nia.
+  assert (Hx4 : 0 <= x4 <= 524288) by lia. clear U L.
+  assert (Ix4 : in32 x4) by (unfold in32; lia).
+  (* x4 / 4 *)
+  pose proof (rdbpot_c_bounds_2 x4) as [U L]. fold x4_4 in U, L.
+  assert (Hx44 : 0 <= x4_4 <= 131072) by lia. clear U L.
+  assert (Ix44 : in32 x4_4) by (unfold in32; lia).
+  assert (Is1 : in32 (x4_4 + x3)) by (unfold in32; lia).
+  (* m1 *)
+  pose proof (srdhm32_c_bounds' (x4_4 + x3) 715827883 Is1 ltac:(unfold in32; lia) ltac:(lia)) as [U L].
+  fold m1 in U, L.
+  assert (Hm1 : -1398102 <= m1 <= 1441793) by lia. clear U L.
+  assert (Im1 : in32 m1) by (unfold in32; lia).
+  assert (Is2 : in32 (m1 + x2)) by (unfold in32; lia).
+  (* p *)
+  pose proof (rdbpot_c_bounds_1 (m1 + x2)) as [U L]. fold p in U, L.
+  assert (Hp : -699052 <= p <= 17498113) by lia. clear U L.
+  assert (Ip : in32 p) by (unfold in32; lia).
+  assert (Iy : in32 (x + p)) by (unfold in32; lia).
+  (* m2 *)
+  pose proof (srdhm32_c_bounds' 1895147668 (x + p) ltac:(unfold in32; lia) Iy ltac:(lia)) as [U L].
+  fold m2 in U, L.
+  assert (Hm2 : -237510371 <= m2 <= 252335489) by lia.
+  assert (Im2 : in32 m2) by (unfold in32; lia).
+  repeat split; try assumption; lia.
+Qed.
+
+Lemma exp_interval_c_range a : -536870912 <= a < 0 -> 0 < exp_interval_c a <= 2147483647.
+Proof. intros Ha. pose proof (exp_interval_facts a Ha) as F. cbv zeta in F. unfold exp_interval_c. tauto. Qed.
+
+Lemma SRMBPOT_neg e x : e < 0 -> SaturatingRoundingMultiplyByPOT e x = RoundingDivideByPOT x (- e).
+Proof. intros. unfold SaturatingRoundingMultiplyByPOT. destruct (Z.ltb_spec e 0); [reflexivity|lia]. Qed.
+
+Lemma exp_interval_ref_closed a : -536870912 <= a < 0 ->
+  FpMath.exp_on_interval_between_negative_one_quarter_and_0_excl a = exp_interval_c a.
+Proof.
+  intros Ha. pose proof (exp_interval_facts a Ha) as F. cbv zeta in F.
+  destruct F as (Ix & Ix2 & Ix3 & Ix4 & Ix44 & Is1 & Im1 & Is2 & Ip & Iy & Im2 & Hr).
+  unfold FpMath.exp_on_interval_between_negative_one_quarter_and_0_excl, exp_interval_c. cbv zeta.
+  change (Z.shiftl 1 28) with 268435456. unfold add32.
+  set (x := a + 268435456) in *. rewrite (cast32_id x Ix).
+  rewrite (SRDHM32_closed x x Ix Ix). set (x2 := srdhm32_c x x) in *.
+  rewrite (SRDHM32_closed x2 x Ix2 Ix). set (x3 := srdhm32_c x2 x) in *.
+  rewrite (SRDHM32_closed x2 x2 Ix2 Ix2). set (x4 := srdhm32_c x2 x2) in *.
+  rewrite !SRMBPOT_neg by lia. change (- -2) with 2. change (- -1) with 1.
+  rewrite (RDBPOT_closed x4 2 Ix4 ltac:(lia)). set (x4_4 := rdbpot_c x4 2) in *.
+  rewrite (cast32_id (x4_4 + x3) Is1).
+  rewrite (SRDHM32_closed (x4_4 + x3) 715827883 Is1 ltac:(unfold in32; lia)).
+  set (m1 := srdhm32_c (x4_4 + x3) 715827883) in *.
+  rewrite (cast32_id (m1 + x2) Is2).
+  rewrite (RDBPOT_closed (m1 + x2) 1 Is2 ltac:(lia)). set (p := rdbpot_c (m1 + x2) 1) in *.
+  rewrite (cast32_id (x + p) Iy).
+  rewrite (SRDHM32_closed 1895147668 (x + p) ltac:(unfold in32; lia) Iy).
+  apply cast32_id. unfold in32. lia.
+Qed.
+
+Lemma exp_interval_gen_closed a : -536870912 <= a < 0 ->
+  G.exp_on_interval_between_negative_one_quarter_and_0_excl a = Some (exp_interval_c a).
+Proof.
+  intros Ha. pose proof (exp_interval_facts a Ha) as F. cbv zeta in F.
+  destruct F as (Ix & Ix2 & Ix3 & Ix4 & Ix44 & Is1 & Im1 & Is2 & Ip & Iy & Im2 & Hr).
+  unfold G.exp_on_interval_between_negative_one_quarter_and_0_excl, exp_interval_c.
+  rewrite in_int32_intro by (unfold in32; lia).
+  change (Z.shiftl (Z.opp 1) (Z.sub 31 2)) with (-536870912).
+  assert (Gd : (-536870912 <=? a) && (a <? 0) = true) by (rewrite andb_true_iff, Z.leb_le, Z.ltb_lt; lia).
+  rewrite Gd. cbv zeta. change (Z.shiftl 1 28) with 268435456.
+  set (x := a + 268435456) in *.
+  rewrite (srdhm32_gen_closed x x Ix Ix). cbv beta iota. set (x2 := srdhm32_c x x) in *.
+  rewrite (srdhm32_gen_closed x2 x Ix2 Ix). cbv beta iota. set (x3 := srdhm32_c x2 x) in *.
+  rewrite (srdhm32_gen_closed x2 x2 Ix2 Ix2). cbv beta iota. set (x4 := srdhm32_c x2 x2) in *.
+  rewrite (rdbpot_gen_closed x4 2 Ix4 ltac:(lia)). cbv beta iota. set (x4_4 := rdbpot_c x4 2) in *.
+  rewrite (srdhm32_gen_closed (x4_4 + x3) 715827883 Is1 ltac:(unfold in32; lia)). cbv beta iota.
+  set (m1 := srdhm32_c (x4_4 + x3) 715827883) in *.
+  rewrite (rdbpot_gen_closed (m1 + x2) 1 Is2 ltac:(lia)). cbv beta iota. set (p := rdbpot_c (m1 + x2) 1) in *.
+  rewrite (srdhm32_gen_closed 1895147668 (x + p) ltac:(unfold in32; lia) Iy). cbv beta iota.
+  rewrite chk_int32_intro by (unfold in32; lia). reflexivity.
+Qed.
+
+Lemma exp_on_interval_eq_lemma a :
+  -536870912 <= a < 0 ->
+  G.exp_on_interval_between_negative_one_quarter_and_0_excl a =
+    Some (FpMath.exp_on_interval_between_negative_one_quarter_and_0_excl a) /\
+  0 < FpMath.exp_on_interval_between_negative_one_quarter_and_0_excl a <= 2147483647.
+Proof.
+  intros Ha. rewrite exp_interval_ref_closed by assumption.
+  split; [apply exp_interval_gen_closed; assumption|apply exp_interval_c_range; assumption].
+Qed.
+
+(* ------------------------------------------------------------------------------------------
+   exp on negative values (Q5.26 -> Q0.31) *)
+
+(* one barrel-shifter step of the translated code and of the reference, constants evaluated *)
+Definition gstep (rem k mult r : Z) : option Z :=
+  if negb (Z.eqb (Z.land rem k) 0)
+  then match G.saturating_rounding_mul32 r mult with Some r' => Some r' | None => None end
+  else Some r.
+Definition rstep (rem k mult r : Z) : Z := if negb (Z.land rem k =? 0) then SRDHM32 r mult else r.
+Definition cstep (rem k mult r : Z) : Z := if negb (Z.land rem k =? 0) then srdhm32_c r mult else r.
+
+Definition gen_exp_nice (a : Z) : option Z :=
+  if in_int 32 a then if a <=? 0 then
+    match chk_int 32 16777216 with Some oq =>
+    match chk_int 32 16777215 with Some mask =>
+    match chk_int 32 (Z.land a mask - oq) with Some am =>
+    match G.rescale 5 0 am with Some r7 =>
+    match G.exp_on_interval_between_negative_one_quarter_and_0_excl r7 with Some r0 =>
+    match chk_int 32 (am - a) with Some rem =>
+    match gstep rem 16777216 1672461947 r0 with Some r1 =>
+    match gstep rem 33554432 1302514674 r1 with Some r2 =>
+    match gstep rem 67108864 790015084 r2 with Some r3 =>
+    match gstep rem 134217728 290630308 r3 with Some r4 =>
+    match gstep rem 268435456 39332535 r4 with Some r5 =>
+    match gstep rem 536870912 720401 r5 with Some r6 =>
+    match gstep rem 1073741824 242 r6 with Some r7' =>
+      if a =? 0 then Some 2147483647 else Some r7'
+    | None => None end | None => None end | None => None end | None => None end
+    | None => None end | None => None end | None => None end | None => None end
+    | None => None end | None => None end | None => None end | None => None end | None => None end
+  else None else None.
+
+Lemma gen_exp_unfold a : G.exp_on_negative_values a = gen_exp_nice a.
+Proof. reflexivity. Qed.
+
+Definition ref_exp_nice (a : Z) : Z :=
+  let am := sub32 (Z.land a 16777215) 16777216 in
+  let r0 := FpMath.exp_on_interval_between_negative_one_quarter_and_0_excl (Rescale 5 0 am) in
+  let rem := sub32 am a in
+  let r1 := rstep rem 16777216 1672461947 r0 in
+  let r2 := rstep rem 33554432 1302514674 r1 in
+  let r3 := rstep rem 67108864 790015084 r2 in
+  let r4 := rstep rem 134217728 290630308 r3 in
+  let r5 := rstep rem 268435456 39332535 r4 in
+  let r6 := rstep rem 536870912 720401 r5 in
+  let r7 := rstep rem 1073741824 242 r6 in
+  if a =? 0 then 2147483647 else r7.
+
+Lemma ref_exp_unfold a : FpMath.exp_on_negative_values a = ref_exp_nice a.
+Proof. reflexivity. Qed.
+
+Definition exp_neg_c (a : Z) : Z :=
+  let am := a mod 16777216 - 16777216 in
+  let r0 := exp_interval_c (am * 32) in
+  let rem := am - a in
+  let r1 := cstep rem 16777216 1672461947 r0 in
+  let r2 := cstep rem 33554432 1302514674 r1 in
+  let r3 := cstep rem 67108864 790015084 r2 in
+  let r4 := cstep rem 134217728 290630308 r3 in
+  let r5 := cstep rem 268435456 39332535 r4 in
+  let r6 := cstep rem 536870912 720401 r5 in
+  let r7 := cstep rem 1073741824 242 r6 in
+  if a =? 0 then 2147483647 else r7.
+
+Definition q31 (r : Z) : Prop := 0 <= r <= 2147483647.
+Lemma q31_in32 r : q31 r -> in32 r. Proof. unfold q31, in32. lia. Qed.
+
+Lemma cstep_q31 rem k mult r : q31 r -> q31 mult -> q31 (cstep rem k mult r).
+Proof.
+  intros Hr Hm. unfold cstep. destruct (negb (Z.land rem k =? 0)); [|exact Hr].
+  pose proof (srdhm32_c_bounds' r mult (q31_in32 _ Hr) (q31_in32 _ Hm) ltac:(unfold q31 in *; lia)) as [U L].
+  unfold q31 in *. assert (0 <= r * mult <= 2147483647 * 2147483647) by nia. lia.
+Qed.
+
+Lemma gstep_closed rem k mult r : q31 r -> q31 mult -> gstep rem k mult r = Some (cstep rem k mult r).
+Proof.
+  intros Hr Hm. unfold gstep, cstep. destruct (negb (Z.land rem k =? 0)); [|reflexivity].
+  rewrite srdhm32_gen_closed by (apply q31_in32; assumption). reflexivity.
+Qed.
+
+Lemma rstep_closed rem k mult r : q31 r -> q31 mult -> rstep rem k mult r = cstep rem k mult r.
+Proof.
+  intros Hr Hm. unfold rstep, cstep. destruct (negb (Z.land rem k =? 0)); [|reflexivity].
+  apply SRDHM32_closed; apply q31_in32; assumption.
+Qed.
+
+Lemma exp_neg_facts a : in32 a -> a <= 0 ->
+  let am := a mod 16777216 - 16777216 in
+  -16777216 <= am <= -1 /\ in32 (am - a) /\ -536870912 <= am * 32 < 0.
+Proof.
+  intros Ha Hn. cbv zeta. pose proof (Z.mod_pos_bound a 16777216 ltac:(lia)).
+  pose proof (Z.div_mod a 16777216 ltac:(lia)). unfold in32 in *. lia.
+Qed.
+
+Lemma rescale_5_0 am : -16777216 <= am <= -1 ->
+  G.rescale 5 0 am = Some (am * 32) /\ Rescale 5 0 am = am * 32.
+Proof.
+  intros H. assert (Hi : in_int 32 am = true) by (apply in_int32_true; unfold in32; lia).
+  destruct (rescale_eq_lemma 5 0 am eq_refl eq_refl Hi ltac:(lia)) as [E _]. rewrite E.
+  assert (R : Rescale 5 0 am = am * 32).
+  { unfold Rescale. change (5 - 0) with 5. rewrite SRMBPOT_closed_pos by (unfold in32; lia).
+    unfold srmbpot_c. change (2 ^ (31 - 5) - 1) with 67108863. change (2 ^ 5) with 32.
+    destruct (Z.gtb_spec am 67108863); [lia|]. destruct (Z.ltb_spec am (Z.opp 67108863)); [lia|reflexivity]. }
+  rewrite R. split; reflexivity.
+Qed.
+
+Ltac q31c := unfold q31; lia.
+
+Lemma exp_neg_c_q31 a : in32 a -> a <= 0 -> q31 (exp_neg_c a).
+Proof.
+  intros Ha Hn. pose proof (exp_neg_facts a Ha Hn) as F. cbv zeta in F. destruct F as (Ham & Irem & Hs).
+  unfold exp_neg_c. cbv zeta. destruct (a =? 0); [q31c|].
+  pose proof (exp_interval_c_range _ Hs) as H0.
+  repeat (apply cstep_q31; [|q31c]). q31c.
+Qed.
+
+Lemma exp_neg_gen_closed a : in32 a -> a <= 0 -> G.exp_on_negative_values a = Some (exp_neg_c a).
+Proof.
+  intros Ha Hn. pose proof (exp_neg_facts a Ha Hn) as F. cbv zeta in F. destruct F as (Ham & Irem & Hs).
+  rewrite gen_exp_unfold. unfold gen_exp_nice, exp_neg_c.
+  rewrite (in_int32_intro a Ha). destruct (Z.leb_spec a 0); [|lia].
+  change (chk_int 32 16777216) with (Some 16777216). change (chk_int 32 16777215) with (Some 16777215).
+  cbv beta iota zeta.
+  change 16777215 with (2 ^ 24 - 1). rewrite land_ones_mod by lia. change (2 ^ 24) with 16777216.
+  set (am := a mod 16777216 - 16777216) in *.
+  rewrite (chk_int32_intro am) by (unfold in32; lia). cbv beta iota.
+  destruct (rescale_5_0 am Ham) as [E _]. rewrite E. cbv beta iota.
+  rewrite (exp_interval_gen_closed _ Hs). cbv beta iota.
+  rewrite (chk_int32_intro (am - a) Irem). cbv beta iota.
+  pose proof (exp_interval_c_range _ Hs) as H0.
+  set (r0 := exp_interval_c (am * 32)) in *. assert (Q0 : q31 r0) by q31c.
+  rewrite (gstep_closed _ 16777216 1672461947 r0 Q0 ltac:(q31c)). cbv beta iota.
+  set (r1 := cstep _ 16777216 _ r0). assert (Q1 : q31 r1) by (apply cstep_q31; [assumption|q31c]).
+  rewrite (gstep_closed _ 33554432 1302514674 r1 Q1 ltac:(q31c)). cbv beta iota.
+  set (r2 := cstep _ 33554432 _ r1). assert (Q2 : q31 r2) by (apply cstep_q31; [assumption|q31c]).
+  rewrite (gstep_closed _ 67108864 790015084 r2 Q2 ltac:(q31c)). cbv beta iota.
+  set (r3 := cstep _ 67108864 _ r2). assert (Q3 : q31 r3) by (apply cstep_q31; [assumption|q31c]).
+  rewrite (gstep_closed _ 134217728 290630308 r3 Q3 ltac:(q31c)). cbv beta iota.
+  set (r4 := cstep _ 134217728 _ r3). assert (Q4 : q31 r4) by (apply cstep_q31; [assumption|q31c]).
+  rewrite (gstep_closed _ 268435456 39332535 r4 Q4 ltac:(q31c)). cbv beta iota.
+  set (r5 := cstep _ 268435456 _ r4). assert (Q5 : q31 r5) by (apply cstep_q31; [assumption|q31c]).
+  rewrite (gstep_closed _ 536870912 720401 r5 Q5 ltac:(q31c)). cbv beta iota.
+  set (r6 := cstep _ 536870912 _ r5). assert (Q6 : q31 r6) by (apply cstep_q31; [assumption|q31c]).
+  rewrite (gstep_closed _ 1073741824 242 r6 Q6 ltac:(q31c)). cbv beta iota.
+  destruct (a =? 0); reflexivity.
+Qed.
+
+Lemma exp_neg_ref_closed a : in32 a -> a <= 0 -> FpMath.exp_on_negative_values a = exp_neg_c a.
+Proof.
+  intros Ha Hn. pose proof (exp_neg_facts a Ha Hn) as F. cbv zeta in F. destruct F as (Ham & Irem & Hs).
+  rewrite ref_exp_unfold. unfold ref_exp_nice, exp_neg_c. cbv zeta.
+  change 16777215 with (2 ^ 24 - 1). rewrite land_ones_mod by lia. change (2 ^ 24) with 16777216.
+  unfold sub32. set (am := a mod 16777216 - 16777216) in *.
+  rewrite (cast32_id am) by (unfold in32; lia). rewrite (cast32_id (am - a) Irem).
+  destruct (rescale_5_0 am Ham) as [_ E]. rewrite E.
+  rewrite (exp_interval_ref_closed _ Hs).
+  pose proof (exp_interval_c_range _ Hs) as H0.
+  set (r0 := exp_interval_c (am * 32)) in *. assert (Q0 : q31 r0) by q31c.
+  rewrite (rstep_closed _ 16777216 1672461947 r0 Q0 ltac:(q31c)).
+  set (r1 := cstep _ 16777216 _ r0). assert (Q1 : q31 r1) by (apply cstep_q31; [assumption|q31c]).
+  rewrite (rstep_closed _ 33554432 1302514674 r1 Q1 ltac:(q31c)).
+  set (r2 := cstep _ 33554432 _ r1). assert (Q2 : q31 r2) by (apply cstep_q31; [assumption|q31c]).
+  rewrite (rstep_closed _ 67108864 790015084 r2 Q2 ltac:(q31c)).
+  set (r3 := cstep _ 67108864 _ r2). assert (Q3 : q31 r3) by (apply cstep_q31; [assumption|q31c]).
+  rewrite (rstep_closed _ 134217728 290630308 r3 Q3 ltac:(q31c)).
+  set (r4 := cstep _ 134217728 _ r3). assert (Q4 : q31 r4) by (apply cstep_q31; [assumption|q31c]).
+  rewrite (rstep_closed _ 268435456 39332535 r4 Q4 ltac:(q31c)).
+  set (r5 := cstep _ 268435456 _ r4). assert (Q5 : q31 r5) by (apply cstep_q31; [assumption|q31c]).
+  rewrite (rstep_closed _ 536870912 720401 r5 Q5 ltac:(q31c)).
+  set (r6 := cstep _ 536870912 _ r5). assert (Q6 : q31 r6) by (apply cstep_q31; [assumption|q31c]).
+  rewrite (rstep_closed _ 1073741824 242 r6 Q6 ltac:(q31c)).
+  reflexivity.
+Qed.
+
+Lemma exp_on_negative_values_eq_lemma a :
+  in_int 32 a = true -> a <= 0 -> G.exp_on_negative_values a = Some (FpMath.exp_on_negative_values a).
+Proof.
+  intros Ha Hn. apply in_int32_true in Ha. rewrite exp_neg_ref_closed by assumption.
+  apply exp_neg_gen_closed; assumption.
+Qed.
+
+Lemma exp_on_negative_values_total_lemma a :
+  in_int 32 a = true -> a <= 0 ->
+  exists r, G.exp_on_negative_values a = Some r /\ in_int 32 r = true /\ 0 <= r.
+Proof.
+  intros Ha Hn. apply in_int32_true in Ha. exists (exp_neg_c a).
+  split; [apply exp_neg_gen_closed; assumption|].
+  pose proof (exp_neg_c_q31 a Ha Hn) as Q. split; [apply in_int32_true, q31_in32; exact Q|unfold q31 in Q; lia].
+Qed.
+
+(* outside the domain the function stops with an assertion *)
+Lemma exp_on_negative_values_positive_fails a : 0 < a -> G.exp_on_negative_values a = None.
+Proof.
+  intros Hp. rewrite gen_exp_unfold. unfold gen_exp_nice. destruct (in_int 32 a); [|reflexivity].
+  destruct (Z.leb_spec a 0); [lia|reflexivity].
+Qed.
+
+(* ------------------------------------------------------------------------------------------
+   non-trivial instances of the hypotheses (computed by the kernel) *)
+Example srdhm32_example :
+  G.saturating_rounding_mul32 (-2147483648) 2147483647 = Some (-2147483647) /\
+  SRDHM32 (-2147483648) 2147483647 = -2147483647 /\
+  G.saturating_rounding_mul32 (-3) 1073741824 = Some (-1) /\   (* -1.5 rounds away from zero *)
+  G.saturating_rounding_mul32 (-2147483648) (-2147483648) = Some 2147483647.
+Proof. vm_compute. repeat split. Qed.
+Example srdhm16_example :
+  G.saturating_rounding_mul16 (-32768) 32767 = Some (-32767) /\ SRDHM16 (-3) 16384 = -1 /\
+  G.saturating_rounding_mul16 (-3) 16384 = Some (-1).
+Proof. vm_compute. repeat split. Qed.
+Example sat_mul16_example :
+  G.saturating_mul16 (-3) 16384 = Some (-1) /\ G.saturating_mul16 (-32768) (-32768) = Some 32767 /\
+  SaturatingDoublingHighMul16 (-32767) 3 = -2.
+Proof. vm_compute. repeat split. Qed.
+Example rdbpot_example :
+  G.rounding_divide_by_pot (-5) 1 = Some (-3) /\ RoundingDivideByPOT (-5) 1 = -3 /\
+  G.rounding_divide_by_pot 5 1 = Some 3 /\ G.rounding_divide_by_pot (-2147483648) 31 = Some (-1) /\
+  G.rounding_divide_by_pot 1073741823 31 = Some 0.
+Proof. vm_compute. repeat split. Qed.
+Example srmbpot_example :
+  G.saturating_rounding_multiply_by_pot 67108864 5 = Some 2147483647 /\
+  SaturatingRoundingMultiplyByPOT 5 (-67108863) = -2147483616 /\
+  G.rescale 5 0 (-16777216) = Some (-536870912) /\ G.rescale 0 5 (-48) = Some (-2).
+Proof. vm_compute. repeat split. Qed.
+Example mbqm_example :
+  G.multiply_by_quantized_multiplier (-255) 1518500250 30 = Some (-361) /\
+  MultiplyByQuantizedMultiplier (-255) 1518500250 1 = -361 /\
+  G.multiply_by_quantized_multiplier 100000 1073741824 0 = None /\
+  G.multiply_by_quantized_multiplier 77 2147483647 40 = Some 0.
+Proof. vm_compute. repeat split. Qed.
+Example exp_example :
+  G.exp_on_negative_values (-12345678) = Some 1786631188 /\ FpMath.exp_on_negative_values (-12345678) = 1786631188 /\
+  G.exp_on_negative_values 0 = Some 2147483647 /\ G.exp_on_negative_values (-2147483648) = Some 0.
+Proof. vm_compute. repeat split. Qed.
+Example shift_left_example :
+  G.shift_left16 32640 1 = Some 32767 /\ SaturatingLeftShift16 (-32640) 5 = -32768 /\
+  G.shift_left32 3 31 = Some 2147483647 /\ G.shift_left32 (-5) 3 = Some (-40).
+Proof. vm_compute. repeat split. Qed.
+Example downscale_example :
+  G.downscale_multiplier_int32_to_int16 2147483647 = Some 32767 /\
+  G.downscale_multiplier_int32_to_int16 1073741824 = Some 16384 /\
+  DownScaleInt32ToInt16Multiplier 1073774591 = 16384.
+Proof. vm_compute. repeat split. Qed.
